@@ -1,7 +1,7 @@
 (* C09 — restatements only.  Model: Subspace.v; proofs: SubspaceProofs.v.
    The MathComp statement (Sherman-Morrison-Woodbury, all sizes, any field) is restated in C09_SMW.v. *)
 From Coq Require Import List QArith.
-From LBFGSB Require Import Model.Subspace Proofs.SubspaceProofs.
+From LBFGSB Require Import Model.Subspace Proofs.SubspaceProofs Proofs.SubspaceDescent.
 Import ListNotations.
 Open Scope Q_scope.
 
@@ -104,3 +104,41 @@ Theorem C09_descent_partial :
   forall gd dBd m_cp q : Q, 0 <= dBd -> m_cp < 0 -> q <= 0 -> gd + (1 # 2) * dBd == m_cp + q -> gd < 0.
 Proof. exact descent_partial. Qed.
 Print Assumptions C09_descent_partial.
+
+(* ---- the quadratic model itself (Proofs/SubspaceDescent.v): m(v) = g.v + 1/2 v^T B v with B = theta I - W M W^T;
+   c_ok: the input c is W^T (x_cp - x) (what the Cauchy point hands over: C08_gcp_c); Msym: the middle matrix is symmetric *)
+(* exact change of the model value along the subspace step; hence it does not increase the model when the reduced curvature
+   along d_hat is non-negative, and strictly decreases it when that curvature is positive *)
+Theorem C09_sub_step_model_identity :
+  forall (hint : option (list Q)) (inp : input) (o : output) (n : nat),
+    subspace_gen hint inp = SOk o -> wf inp n -> feasible (i_xc inp) (i_lb inp) (i_ub inp) -> ~ i_theta inp == 0 ->
+    c_ok inp -> Msym (i_M inp) ->
+    mval inp (vsub (o_xbar o) (i_x inp)) ==
+    mval inp (vsub (i_xc inp) (i_x inp)) + (o_alpha o * o_alpha o / 2 - o_alpha o) * kappa_of inp o.
+Proof. exact sub_step_model_identity. Qed.
+Print Assumptions C09_sub_step_model_identity.
+
+Theorem C09_sub_step_model_decrease :
+  forall (hint : option (list Q)) (inp : input) (o : output) (n : nat),
+    subspace_gen hint inp = SOk o -> wf inp n -> feasible (i_xc inp) (i_lb inp) (i_ub inp) -> ~ i_theta inp == 0 ->
+    c_ok inp -> Msym (i_M inp) ->
+    (0 <= kappa_of inp o -> mval inp (vsub (o_xbar o) (i_x inp)) <= mval inp (vsub (i_xc inp) (i_x inp))) /\
+    (0 < kappa_of inp o -> mval inp (vsub (o_xbar o) (i_x inp)) < mval inp (vsub (i_xc inp) (i_x inp))).
+Proof.
+  intros hint inp o n H1 H2 H3 H4 H5 H6. split.
+  - exact (sub_step_model_decrease hint inp o n H1 H2 H3 H4 H5 H6).
+  - exact (sub_step_model_strict hint inp o n H1 H2 H3 H4 H5 H6).
+Qed.
+Print Assumptions C09_sub_step_model_decrease.
+
+(* with B positive semi-definite the step handed to the line search is a descent direction as soon as the Cauchy point
+   decreased the model *)
+Theorem C09_sub_descent_direction :
+  forall (hint : option (list Q)) (inp : input) (o : output) (n : nat),
+    subspace_gen hint inp = SOk o -> wf inp n -> feasible (i_xc inp) (i_lb inp) (i_ub inp) -> ~ i_theta inp == 0 ->
+    c_ok inp -> Msym (i_M inp) ->
+    (forall v, length v = n -> 0 <= qform inp v v) ->
+    mval inp (vsub (o_xbar o) (i_x inp)) <= mval inp (vsub (i_xc inp) (i_x inp)) /\
+    (mval inp (vsub (i_xc inp) (i_x inp)) < 0 -> dot (i_g inp) (vsub (o_xbar o) (i_x inp)) < 0).
+Proof. exact sub_descent_direction_Bpsd. Qed.
+Print Assumptions C09_sub_descent_direction.
